@@ -64,7 +64,7 @@ def prove_zero(name, expr, hyps=(), witness=None, nsamples=None, replay=None, go
         if expr.has(sp.nan) or expr.has(sp.zoo):
             return Obl(name, 'refuted', 'definedness', time.time() - t0, goal=goal_text or short(expr), detail='expression is undefined (nan/zoo)', cex=None, replay=replay)
         try:
-            with time_limit(90 if tier == 'quick' else 900):
+            with time_limit(240 if tier == 'quick' else 900):
                 z, info = alg.is_zero(expr, hyps, positive=positive)
         except Budget:
             z, info = None, {'reason': 'normaliser budget exceeded'}
@@ -97,7 +97,7 @@ def prove_valid(name, hyps, goal, witness=None, nsamples=None, replay=None, time
     """Inequality / boolean obligation  hyps => goal   (z3; numeric refutation when z3 gives no model)."""
     t0 = time.time()
     tier = os.environ.get('VERIF_TIER', 'quick')
-    if timeout_ms is None: timeout_ms = 20000 if tier == 'quick' else 120000
+    if timeout_ms is None: timeout_ms = 60000 if tier == 'quick' else 180000
     if nsamples is None: nsamples = 100 if tier == 'quick' else 1000
     try:
         if goal is True or goal is sp.true:
